@@ -221,3 +221,129 @@ theorem digits_first_bad (s : Bytes) (off : Nat) (u : Bool) (st : List Nat) (i :
             (fun t' ht' p' hp' => hgood (t' + 2) (by omega) p' (by simpa [flat] using hp')) hq
 
 end U.UU
+namespace U.UU
+open U
+
+/-! ## the accumulated words -/
+
+/-- sixteen 4-bit values OR-ed into a word, first value in the top nibble (the loop's order) -/
+def packW (g : Nat → Nat) : BitVec 64 :=
+  0#64 ||| BitVec.ofNat 64 (g 0) <<< 60 ||| BitVec.ofNat 64 (g 1) <<< 56
+    ||| BitVec.ofNat 64 (g 2) <<< 52 ||| BitVec.ofNat 64 (g 3) <<< 48
+    ||| BitVec.ofNat 64 (g 4) <<< 44 ||| BitVec.ofNat 64 (g 5) <<< 40
+    ||| BitVec.ofNat 64 (g 6) <<< 36 ||| BitVec.ofNat 64 (g 7) <<< 32
+    ||| BitVec.ofNat 64 (g 8) <<< 28 ||| BitVec.ofNat 64 (g 9) <<< 24
+    ||| BitVec.ofNat 64 (g 10) <<< 20 ||| BitVec.ofNat 64 (g 11) <<< 16
+    ||| BitVec.ofNat 64 (g 12) <<< 12 ||| BitVec.ofNat 64 (g 13) <<< 8
+    ||| BitVec.ofNat 64 (g 14) <<< 4 ||| BitVec.ofNat 64 (g 15) <<< 0
+
+theorem placeAll_starts (f : Nat → Nat) :
+    placeAll f Gen.uu_starts 0 (0#64, 0#64) = (packW (fun k => f (pos (k + 16))), packW (fun k => f (pos k))) := by
+  simp [placeAll, Gen.uu_starts, place, Gen.uu_digitPos, Gen.uu_digitWord, Gen.uu_digitShift, packW, pos]
+
+theorem or_shl_step (A : BitVec 64) (S v sh : Nat) (hA : A.toNat = S * 2 ^ (sh + 4)) (hv : v < 16)
+    (hS : (S * 16 + v) * 2 ^ sh < 2 ^ 64) :
+    (A ||| BitVec.ofNat 64 v <<< sh).toNat = (S * 16 + v) * 2 ^ sh := by
+  have hpos : 0 < 2 ^ sh := Nat.pow_pos (by decide)
+  have hvs : v * 2 ^ sh < 2 ^ 64 := by
+    refine Nat.lt_of_le_of_lt ?_ hS
+    exact Nat.mul_le_mul_right _ (by omega)
+  have hb : v * 2 ^ sh < 2 ^ (sh + 4) := by
+    rw [Nat.pow_add, Nat.mul_comm]
+    exact Nat.mul_lt_mul_of_pos_left hv hpos
+  rw [BitVec.toNat_or, BitVec.toNat_shiftLeft, BitVec.toNat_ofNat, Nat.mod_eq_of_lt (by omega : v < 2 ^ 64),
+    Nat.shiftLeft_eq, Nat.mod_eq_of_lt hvs, hA, ← Nat.shiftLeft_eq, ← Nat.shiftLeft_add_eq_or_of_lt hb,
+    Nat.shiftLeft_eq, Nat.pow_add, Nat.add_mul, Nat.mul_assoc, Nat.mul_comm 16, Nat.mul_comm (2 ^ sh) (2 ^ 4)]
+
+/-- the packed word as a number (Horner form) -/
+theorem packW_toNat (g : Nat → Nat) (hg : ∀ k, g k < 16) :
+    (packW g).toNat = ((((((((((((((((0 * 16 + g 0) * 16 + g 1) * 16 + g 2) * 16 + g 3) * 16 + g 4) * 16 + g 5) * 16
+      + g 6) * 16 + g 7) * 16 + g 8) * 16 + g 9) * 16 + g 10) * 16 + g 11) * 16 + g 12) * 16 + g 13) * 16
+      + g 14) * 16 + g 15) * 2 ^ 0 := by
+  have h0 := or_shl_step 0#64 0 (g 0) 60 (by simp) (hg 0) (by have := hg 0; omega)
+  have h1 := or_shl_step _ _ (g 1) 56 h0 (hg 1) (by have := hg 0; have := hg 1; omega)
+  have h2 := or_shl_step _ _ (g 2) 52 h1 (hg 2) (by have := hg 0; have := hg 1; have := hg 2; omega)
+  have h3 := or_shl_step _ _ (g 3) 48 h2 (hg 3) (by have := hg 0; have := hg 1; have := hg 2; have := hg 3; omega)
+  have h4 := or_shl_step _ _ (g 4) 44 h3 (hg 4) (by have := hg 0; have := hg 1; have := hg 2; have := hg 3; have := hg 4; omega)
+  have h5 := or_shl_step _ _ (g 5) 40 h4 (hg 5) (by have := hg 0; have := hg 1; have := hg 2; have := hg 3; have := hg 4; have := hg 5; omega)
+  have h6 := or_shl_step _ _ (g 6) 36 h5 (hg 6) (by have := hg 0; have := hg 1; have := hg 2; have := hg 3; have := hg 4; have := hg 5; have := hg 6; omega)
+  have h7 := or_shl_step _ _ (g 7) 32 h6 (hg 7) (by have := hg 0; have := hg 1; have := hg 2; have := hg 3; have := hg 4; have := hg 5; have := hg 6; have := hg 7; omega)
+  have h8 := or_shl_step _ _ (g 8) 28 h7 (hg 8) (by have := hg 0; have := hg 1; have := hg 2; have := hg 3; have := hg 4; have := hg 5; have := hg 6; have := hg 7; have := hg 8; omega)
+  have h9 := or_shl_step _ _ (g 9) 24 h8 (hg 9) (by have := hg 0; have := hg 1; have := hg 2; have := hg 3; have := hg 4; have := hg 5; have := hg 6; have := hg 7; have := hg 8; have := hg 9; omega)
+  have h10 := or_shl_step _ _ (g 10) 20 h9 (hg 10) (by have := hg 0; have := hg 1; have := hg 2; have := hg 3; have := hg 4; have := hg 5; have := hg 6; have := hg 7; have := hg 8; have := hg 9; have := hg 10; omega)
+  have h11 := or_shl_step _ _ (g 11) 16 h10 (hg 11) (by have := hg 0; have := hg 1; have := hg 2; have := hg 3; have := hg 4; have := hg 5; have := hg 6; have := hg 7; have := hg 8; have := hg 9; have := hg 10; have := hg 11; omega)
+  have h12 := or_shl_step _ _ (g 12) 12 h11 (hg 12) (by have := hg 0; have := hg 1; have := hg 2; have := hg 3; have := hg 4; have := hg 5; have := hg 6; have := hg 7; have := hg 8; have := hg 9; have := hg 10; have := hg 11; have := hg 12; omega)
+  have h13 := or_shl_step _ _ (g 13) 8 h12 (hg 13) (by have := hg 0; have := hg 1; have := hg 2; have := hg 3; have := hg 4; have := hg 5; have := hg 6; have := hg 7; have := hg 8; have := hg 9; have := hg 10; have := hg 11; have := hg 12; have := hg 13; omega)
+  have h14 := or_shl_step _ _ (g 14) 4 h13 (hg 14) (by have := hg 0; have := hg 1; have := hg 2; have := hg 3; have := hg 4; have := hg 5; have := hg 6; have := hg 7; have := hg 8; have := hg 9; have := hg 10; have := hg 11; have := hg 12; have := hg 13; have := hg 14; omega)
+  have h15 := or_shl_step _ _ (g 15) 0 h14 (hg 15) (by have := hg 0; have := hg 1; have := hg 2; have := hg 3; have := hg 4; have := hg 5; have := hg 6; have := hg 7; have := hg 8; have := hg 9; have := hg 10; have := hg 11; have := hg 12; have := hg 13; have := hg 14; have := hg 15; omega)
+  exact h15
+
+theorem packW_digit (g : Nat → Nat) (hg : ∀ k, g k < 16) (k : Nat) (hk : k < 16) :
+    (packW g).toNat / 16 ^ (15 - k) % 16 = g k := by
+  rw [packW_toNat g hg]
+  have := hg 0
+  have := hg 1
+  have := hg 2
+  have := hg 3
+  have := hg 4
+  have := hg 5
+  have := hg 6
+  have := hg 7
+  have := hg 8
+  have := hg 9
+  have := hg 10
+  have := hg 11
+  have := hg 12
+  have := hg 13
+  have := hg 14
+  have := hg 15
+  have hc : k = 0 ∨ k = 1 ∨ k = 2 ∨ k = 3 ∨ k = 4 ∨ k = 5 ∨ k = 6 ∨ k = 7 ∨ k = 8 ∨ k = 9 ∨ k = 10 ∨ k = 11 ∨ k = 12 ∨ k = 13 ∨ k = 14 ∨ k = 15 := by omega
+  rcases hc with rfl | rfl | rfl | rfl | rfl | rfl | rfl | rfl | rfl | rfl | rfl | rfl | rfl | rfl | rfl | rfl
+  all_goals (simp only [Nat.reduceSub, Nat.reducePow]; omega)
+
+/-- digit `k` of the ID assembled by the loop is the `k`-th digit value read -/
+theorem nibble_pack (f : Nat → Nat) (hf : ∀ p, f p < 16) (k : Nat) (hk : k < 32) :
+    nibble ⟨packW (fun k => f (pos k)), packW (fun k => f (pos (k + 16)))⟩ k = f (pos k) := by
+  by_cases h : k < 16
+  · rw [nibble_hi _ _ h]
+    exact packW_digit (fun k => f (pos k)) (fun _ => hf _) k h
+  · rw [nibble_lo _ _ (by omega) hk]
+    have := packW_digit (fun k => f (pos (k + 16))) (fun _ => hf _) (k - 16) (by omega)
+    rw [show 15 - (k - 16) = 31 - k by omega, show k - 16 + 16 = k by omega] at this
+    exact this
+
+theorem mod_pow_ext (a b m : Nat) (h : ∀ k, k < m → a / 16 ^ k % 16 = b / 16 ^ k % 16) :
+    a % 16 ^ m = b % 16 ^ m := by
+  induction m with
+  | zero => simp [Nat.mod_one]
+  | succ m ih =>
+    rw [Nat.mod_pow_succ, Nat.mod_pow_succ, ih (fun k hk => h k (by omega)), h m (by omega)]
+
+theorem word_ext (a b : Nat) (ha : a < 2 ^ 64) (hb : b < 2 ^ 64)
+    (h : ∀ k, k < 16 → a / 16 ^ (15 - k) % 16 = b / 16 ^ (15 - k) % 16) : a = b := by
+  have := mod_pow_ext a b 16 (fun k hk => by
+    have := h (15 - k) (by omega)
+    rwa [show 15 - (15 - k) = k by omega] at this)
+  rwa [Nat.mod_eq_of_lt (by omega), Nat.mod_eq_of_lt (by omega)] at this
+
+/-- an ID is determined by its 32 hex digits -/
+theorem ID.ext_nibble (i j : ID) (h : ∀ k, k < 32 → nibble i k = nibble j k) : i = j := by
+  obtain ⟨ih, il⟩ := i
+  obtain ⟨jh, jl⟩ := j
+  have e1 : ih = jh := by
+    apply BitVec.eq_of_toNat_eq
+    apply word_ext _ _ ih.isLt jh.isLt
+    intro k hk
+    have := h k (by omega)
+    rwa [nibble_hi _ _ hk, nibble_hi _ _ hk] at this
+  have e2 : il = jl := by
+    apply BitVec.eq_of_toNat_eq
+    apply word_ext _ _ il.isLt jl.isLt
+    intro k hk
+    have := h (k + 16) (by omega)
+    rw [nibble_lo _ _ (by omega) (by omega), nibble_lo _ _ (by omega) (by omega),
+      show 31 - (k + 16) = 15 - k by omega] at this
+    exact this
+  rw [e1, e2]
+
+end U.UU
